@@ -354,9 +354,15 @@ def engine_check(pid, fams, tier_, maxruns, level_note="", props=None, extra_cov
         sres = stream_validate(files, wd) if stream else None
         dres = design_mc(wd, sd, **design) if design else None
         ires = impl_conformance(h1files, wd) if impl else None
-        cres = clean_model(wd, sd, h1files, tier_ == "quick") if cleanmodel else None
-        if cyclemodel:
-            cres = cycle_model(wd, sd, h1files, tier_ == "quick")
+        # a counterexample of a design-level model is a candidate: it is reported as such (broken check) only if no real
+        # execution of this run shows a violation - otherwise the violations of the real code are the result
+        cres, deferred = None, None
+        try:
+            cres = clean_model(wd, sd, h1files, tier_ == "quick") if cleanmodel else None
+            if cyclemodel:
+                cres = cycle_model(wd, sd, h1files, tier_ == "quick")
+        except Broken as e:
+            deferred = e
         if ires and (ires["errors"] or ires["dynamic"]["errors"]):
             # the conformance replay itself did not run to the end: a broken check, not a disagreement
             raise Broken("Impl conformance (ImplTrace / ImplDynTrace) failed to run: %s" % str((ires["errors"] + ires["dynamic"]["errors"])[0])[:1500])
@@ -392,6 +398,8 @@ def engine_check(pid, fams, tier_, maxruns, level_note="", props=None, extra_cov
                                        {"property": pid, "scenario": by_id.get(scid), "choices": choices,
                                         "violation": v, "event": ev})
                     found.append((path, "%s [%s] at event %s" % (v["what"], v.get("kf") or "-", summarize_event(ev))))
+        if deferred is not None and not found:
+            raise deferred
         # samples: first scenario with its first execution summarized
         for sp, tp in files[:1]:
             with open(tp) as f:
